@@ -40,7 +40,7 @@ class Prop(BaseProp):
             "identity; a third of the calls with read-only arrays); (d) constructors / copy() / merge / filter / "
             "reconcile results are checked with np.shares_memory. distinct = (entry point, interleaving word, keyword "
             "regime)")
-    budget = {"quick": 700, "thorough": 12000}
+    budget = {"quick": 700, "thorough": 72000}
     must_see = ["reconcile_outside_kept_1e-7", "reconcile_outside_dropped_1e-5", "reconcile_different_edges",
                 "reconcile_duplicates", "reconcile_sorted_input", "different_edges_measure_call", "dirty_call", "reconcile_false_call", "mrts_auto", "constructor_alias_checked",
                 "readonly_calls"] + ["ep:" + e[0] for e in common.ENTRY_POINTS] + ["ep:filter_by_spike_sync"]
